@@ -34,7 +34,13 @@ def obligations(tier):
                        "revoke, add_markings, Bundle, MemoryStore; argument snapshots and container identity")] if tier == "thorough" else []
     return extra + [
         CH("setattr_refused", H, "setattr_refused", t, functions=F[:1], stubs=[FMT], bounds="attribute name: every str of 1..4 chars; value unbounded int"),
+        CH("assignment_refused_for_custom_and_extension_properties", H, "setattr_any_property", t, mode="E1s", functions=F[:1],
+           bounds="6 objects carrying custom / custom_properties / toplevel-extension properties (SDO 2.0/2.1, SCO, bundle, embedded) x every carried name + 7 other "
+                  "names x setattr / item assignment / delattr / del item"),
         CH("delete_and_item_assignment_refused", H, "delattr_refused", t, mode="E1s", functions=F[:1], bounds="4 properties x delattr / del item / item assignment"),
         CH("deepcopy_shares_nothing", H, "deepcopy_independent", t, mode="E1s", functions=F[1:3], bounds="5 container-rich objects x (deepcopy, new_version)"),
+        CH("marking_operations_leave_input", H, "marking_ops_leave_input", t, mode="E1s", functions=F[2:] + ["stix2.markings.utils.expand_markings",
+           "stix2.markings.utils.compress_markings", "stix2.markings.granular_markings.clear_markings", "stix2.markings.granular_markings.set_markings"],
+           bounds="5 granular-marking layouts x 12 marking operations x 4 selector lists x dict / library object; snapshot, container identity, mutation of the result"),
         CH("arguments_unchanged", H, "arguments_unchanged", t, mode="E1s", functions=F[2:], bounds="16 operations x (called once, called twice on the same arguments)"),
     ]
